@@ -4,6 +4,7 @@ package main
 // was introduced (function entry, or a havoc) designates an object that existed then.
 
 import (
+	"sync"
 	"go/types"
 	"strings"
 
@@ -12,6 +13,38 @@ import (
 
 // classVal: Go type of the values stored in a heap class (filled as classes are first used).
 var classVal = map[string]types.Type{}
+
+// classSorts: SMT sort of every heap class whose name was ever computed together with its Go
+// type (also by the frame inference, which only produces names). A call-site havoc of a class
+// the calling function has not read yet needs the sort to create the fresh heap: skipping
+// such a havoc would let a later read see the pre-call heap.
+var (
+	classSorts   = map[string]Sort{"big": SArr(SRef, SInt), "lock": SArr(SRef, SInt), "ghost:$sent": SBV64, "ghost:$recv": SBV64}
+	classSortsMu sync.Mutex
+)
+
+func regSort(k string, mk func() Sort) {
+	classSortsMu.Lock()
+	_, ok := classSorts[k]
+	classSortsMu.Unlock()
+	if ok {
+		return
+	}
+	s := mk()
+	classSortsMu.Lock()
+	classSorts[k] = s
+	classSortsMu.Unlock()
+}
+
+func sortOfClass(k string) (Sort, bool) {
+	if strings.HasPrefix(k, "A:") {
+		return SArr(SRef, SIface), true
+	}
+	classSortsMu.Lock()
+	defer classSortsMu.Unlock()
+	s, ok := classSorts[k]
+	return s, ok
+}
 
 func noteClass(k string, t types.Type) {
 	if _, ok := classVal[k]; !ok {
@@ -62,7 +95,7 @@ func (fc *FuncCtx) heapClosure(k string, h *Term, alloc *Term) {
 		sel := Select(h, r)
 		b := body(sel)
 		if b != True {
-			fc.assume(True, Forall([]*Term{r}, b, []*Term{sel}))
+			fc.assumeClosure(h, Forall([]*Term{r}, b, []*Term{sel}))
 		}
 	case strings.HasPrefix(k, "E:"):
 		r := BVar("r", SRef)
@@ -70,7 +103,7 @@ func (fc *FuncCtx) heapClosure(k string, h *Term, alloc *Term) {
 		sel := Select(Select(h, r), i)
 		b := body(sel)
 		if b != True {
-			fc.assume(True, Forall([]*Term{r, i}, b, []*Term{sel}))
+			fc.assumeClosure(h, Forall([]*Term{r, i}, b, []*Term{sel}))
 		}
 	case strings.HasPrefix(k, "MV:"):
 		_, row := h.sort.ArrParts()
@@ -80,12 +113,12 @@ func (fc *FuncCtx) heapClosure(k string, h *Term, alloc *Term) {
 		sel := Select(Select(h, r), q)
 		b := body(sel)
 		if b != True {
-			fc.assume(True, Forall([]*Term{r, q}, b, []*Term{sel}))
+			fc.assumeClosure(h, Forall([]*Term{r, q}, b, []*Term{sel}))
 		}
 	case strings.HasPrefix(k, "G:"):
 		b := body(h)
 		if b != True {
-			fc.assume(True, b)
+			fc.assumeClosure(h, b)
 		}
 	}
 }
@@ -176,4 +209,28 @@ func (fr *Frame) loopFrame(li *loopInfo, before, after *State, ws map[string]boo
 		}
 		fc.assume(True, Forall([]*Term{r}, Implies(And(conds...), Eq(Select(h1, r), Select(h0, r))), []*Term{Select(h1, r)}))
 	}
+}
+
+// hcKey: heap-typing axioms (about one heap version h) by term id -> id of h. Such an axiom
+// matters only to a query that mentions h; the allocation counter it also mentions occurs
+// almost everywhere and must not pull it in (see relevant).
+var (
+	hcKey   = map[int]int{}
+	hcKeyMu sync.Mutex
+)
+
+func (fc *FuncCtx) assumeClosure(h *Term, ax *Term) {
+	if h.op == "const" && ax != True {
+		hcKeyMu.Lock()
+		hcKey[ax.id] = h.id
+		hcKeyMu.Unlock()
+	}
+	fc.assume(True, ax)
+}
+
+func hcKeyOf(id int) (int, bool) {
+	hcKeyMu.Lock()
+	defer hcKeyMu.Unlock()
+	k, ok := hcKey[id]
+	return k, ok
 }
